@@ -371,18 +371,34 @@ def c12_f(ctx: Ctx):
         return [ctx.inc(R, f, f.node, "the state point file is deleted outside the handlers of the write", construct=k)]
     for tr in tries:
         bad = []
+        # the try statements the error of the write travels through, innermost first: tries nested in the body of `tr` (under if / with), then `tr` itself
+        chain = [tr]
+        cur = tr
+        while True:
+            inner = [t for st in cur.body for t in ast.walk(st) if isinstance(t, ast.Try) and common.in_body_of(ctx, f, t, cur, ("body",))]
+            inner = [t for t in inner if not any(t is not o and any(t is x for x in ast.walk(o)) for o in inner)]
+            if len(inner) != 1:
+                break
+            cur = inner[0]
+            chain.insert(0, cur)
         for kind in ("EEXIST", "EACCES"):
             exc = {"EEXIST": "FileExistsError", "EACCES": "PermissionError"}[kind]
-            sel = None
-            for h in tr.handlers:
-                if h.type is None or ex.catches(ex.handler_type_names(f, h), exc):
-                    sel = h
+            for t in chain:
+                sel = None
+                for h in t.handlers:
+                    if h.type is None or ex.catches(ex.handler_type_names(f, h), exc):
+                        sel = h
+                        break
+                if sel is None:
+                    continue        # not caught here: travels on to the enclosing try
+                r, _ = _reaches(sel.body, sel.name or "_", kind, lambda x: id(x) in rems)
+                if r:
+                    bad.append(kind)
                     break
-            if sel is None:
-                continue
-            r, _ = _reaches(sel.body, sel.name or "_", kind, lambda x: id(x) in rems)
-            if r:
-                bad.append(kind)
+                # does the handler hand this error on (bare `raise` / `raise <the error>` reachable for this kind)?
+                rr, _ = _reaches(sel.body, sel.name or "_", kind, lambda x: isinstance(x, ast.Raise) and (x.exc is None or (isinstance(x.exc, ast.Name) and x.exc.id == (sel.name or "_"))))
+                if not rr:
+                    break           # swallowed or replaced here: outer handlers never see it
         if bad:
             out.append(ctx.viol(R, f, tr, f"the handler of the failed state point write deletes the file also for errno {sorted(bad)}: that is what a process gets whose rename / open "
                                 "collides with another process initialising the same job, so the loser removes the winner's valid state point file and the job directory is left "
